@@ -78,10 +78,32 @@ SELECTORS = [
 # views: what a record is for the reference pipeline (no library object is built by the reference)
 
 def view_of(rec):
+    """The declared shape of a record: its type name, its declared (type, name) tuples, the values, the four
+    reserved fields.  A grouped record is the flat view over its members (the first member that declares a name
+    owns it, reserved fields included); `allkeys` is the order in which the flat view lists all names."""
+    from flow.record import GroupedRecord
+    if isinstance(rec, GroupedRecord):
+        members = [view_of(m) for m in rec.records]
+        ft, vals, allkeys = [], [], []
+        for m in members:
+            for (t, n), x in zip(m["fields"], m["vals"]):
+                if n not in allkeys:
+                    allkeys.append(n)
+                    ft.append((t, n))
+                    vals.append(x)
+            for k in RESERVED:
+                if k not in allkeys:
+                    allkeys.append(k)
+        return dict(name=rec.name, fields=ft, names=[n for _, n in ft], vals=vals, meta=dict(members[0]["meta"]),
+                    members=members, allkeys=allkeys)
     ft = [(t, n) for t, n in rec._desc.get_field_tuples()]
     return dict(name=rec._desc.name, fields=ft, names=[n for _, n in ft], vals=[getattr(rec, n) for _, n in ft],
                 meta=dict(_source=rec._source, _classification=rec._classification, _generated=rec._generated,
                           _version=rec._version))
+
+
+def all_keys(v):
+    return v.get("allkeys") or (v["names"] + RESERVED)
 
 
 def uid_of(v):
@@ -105,6 +127,10 @@ def safe_value(rnd, gen, t):
         if ok:
             return v
     return None
+
+
+class SourceProblem(Exception):
+    pass
 
 
 class Dataset:
@@ -147,33 +173,76 @@ class Dataset:
         uid = idx * 1000
         exts = ["records", "records.gz", "jsonl"] + [rnd.choice(["records.lz4", "records.bz2", "records.zst", "jsonl", "records"])]
         ngood = rnd.randint(2, 4)
+        state = dict(uid=uid)
+
+        def make(d):
+            kw = {}
+            for t, n in d.get_field_tuples():
+                if n == "uid":
+                    kw[n] = state["uid"]
+                elif n == "n":
+                    kw[n] = rnd.choice([0, 1, 2, 3, 4, 5, 7, 99])
+                elif n == "s":
+                    kw[n] = rnd.choice(S_POOL)
+                elif n == "user":
+                    kw[n] = rnd.choice(["alice", "bob", "x"])
+                elif n in ("d1", "d2"):
+                    kw[n] = rnd.choice([None, GEN_TIMES[0], pydt.datetime(2001, 2, 3, 4, 5, 6, tzinfo=pydt.timezone.utc)]) \
+                        if n == "d2" else pydt.datetime(2010 + rnd.randrange(10), 1, 2, 3, 4, 5, tzinfo=pydt.timezone.utc)
+                else:
+                    kw[n] = safe_value(rnd, gen, t)
+            state["uid"] += 1
+            return d.recordType(_source=rnd.choice([None, "src", "hé"]), _classification=rnd.choice([None, "secret"]),
+                                _generated=rnd.choice(GEN_TIMES), **kw)
+
         for g in range(ngood):
             ext = exts[g]
             path = os.path.join(self.dir, "good%d.%s" % (g, ext))
+            nrec = rnd.randint(5, 30)
             with RecordWriter(path) as w:
-                for _ in range(rnd.randint(5, 30)):
-                    d = rnd.choice(self.descs)
-                    kw = {}
-                    for t, n in d.get_field_tuples():
-                        if n == "uid":
-                            kw[n] = uid
-                        elif n == "n":
-                            kw[n] = rnd.choice([0, 1, 2, 3, 4, 5, 7, 99])
-                        elif n == "s":
-                            kw[n] = rnd.choice(S_POOL)
-                        elif n == "user":
-                            kw[n] = rnd.choice(["alice", "bob", "x"])
-                        elif n in ("d1", "d2"):
-                            kw[n] = rnd.choice([None, GEN_TIMES[0], pydt.datetime(2001, 2, 3, 4, 5, 6, tzinfo=pydt.timezone.utc)]) \
-                                if n == "d2" else pydt.datetime(2010 + rnd.randrange(10), 1, 2, 3, 4, 5, tzinfo=pydt.timezone.utc)
-                        else:
-                            kw[n] = safe_value(rnd, gen, t)
-                    uid += 1
-                    w.write(d.recordType(_source=rnd.choice([None, "src", "hé"]), _classification=rnd.choice([None, "secret"]),
-                                         _generated=rnd.choice(GEN_TIMES), **kw))
+                for _ in range(nrec):
+                    w.write(make(rnd.choice(self.descs)))
             name = "good%d" % g
             self.good.append(name)
-            self._register(name, path, "good")
+            self._register(name, path, "good", expect=nrec)
+        # a source in which grouped records are followed by plain records of their member types
+        from flow.record import GroupedRecord
+        path = os.path.join(self.dir, "goodg.%s" % ("records" if idx % 2 == 0 else "records.gz"))
+        nrec = 0
+        with RecordWriter(path) as w:
+            for _ in range(rnd.randint(1, 3)):
+                w.write(make(rnd.choice(self.descs)))
+                nrec += 1
+            for gi in range(rnd.randint(2, 4)):
+                ms = rnd.sample(self.descs, rnd.randint(2, 3))
+                if gi == 0:
+                    ms = [self.descs[1], self.descs[2]]       # a group whose flat view has no datetime field
+                w.write(GroupedRecord("c16/g%d" % (gi % 2), [make(d) for d in ms]))
+                nrec += 1
+                for d in ms + [rnd.choice(self.descs)]:
+                    if rnd.random() < 0.8:
+                        w.write(make(d))
+                        nrec += 1
+        self.good.append("goodg")
+        self._register("goodg", path, "good_grouped", expect=nrec)
+        # compressed sources under neutral file names: the codec has to be found from the magic bytes
+        codecs = ["gz", "bz2", "lz4", "zst"]
+        for j, codec in enumerate([codecs[idx % 4], codecs[(idx + 2) % 4]]):
+            canon = os.path.join(self.dir, "neutral%d.records.%s" % (j, codec))
+            nrec = rnd.randint(5, 12)
+            try:
+                with RecordWriter(canon) as w:
+                    for _ in range(nrec):
+                        w.write(make(rnd.choice(self.descs)))
+            except RuntimeError:
+                continue        # codec module not available
+            path = os.path.join(self.dir, ("rotated%d.records.%s.1" % (j, codec)) if j == 0 else ("events%d.bin" % j))
+            shutil.copyfile(canon, path)
+            name = "neutral_%s" % codec
+            self.good.append(name)
+            self._register(name, path, "good_neutral_%s" % codec, expect=nrec, read_from=canon)
+        self.neutral = [n for n in self.good if n.startswith("neutral_")]
+        uid = state["uid"]
         # faulty sources
         p = os.path.join(self.dir, "missing.records")
         self._register("missing", p, "missing")
@@ -264,20 +333,28 @@ class Dataset:
         start, n = offs[k]
         return start + rnd.randint(1, 3 + max(1, n - 1))
 
-    def _register(self, name, path, kind):
+    def _register(self, name, path, kind, expect=None, read_from=None):
+        """The intact prefix of a source = what RecordReader yields before it raises.  A good source is read from
+        the file the harness wrote (canonical extension) and has to yield exactly the records written."""
         from flow.record import RecordReader
         recs, exc, at_open = [], None, False
         try:
             at_open = True
-            rd = RecordReader(path)
+            rd = RecordReader(read_from or path)
             at_open = False
             for r in rd:
                 recs.append(r)
             rd.close()
         except Exception as e:  # noqa
             exc = e
+        if expect is not None and (exc is not None or len(recs) != expect):
+            raise SourceProblem(dict(kind="rdump-source", dataset=self.idx, dataset_seed=self.seed, source=name, source_kind=kind,
+                                     file=os.path.basename(read_from or path),
+                                     problem="RecordReader(%s) over a file holding the %d records the harness wrote with RecordWriter "
+                                             "yields %d records%s" % (os.path.basename(read_from or path), expect, len(recs),
+                                                                      "" if exc is None else " and raises %s: %s" % (type(exc).__name__, exc))))
         if exc is None:
-            mk = "None" if kind == "good" else "(Some CutCompressed)"
+            mk = "None" if kind.startswith("good") else "(Some CutCompressed)"
         elif isinstance(exc, OSError):
             mk = "(Some Missing)" if kind == "missing" else "(Some NotAStream)"
         elif at_open:
@@ -327,7 +404,13 @@ def ref_pipeline(ds, src_names, opt):
             # the harness's -E expressions only read reserved fields and produce one text field `tag`
             ft = ft + [("string", "tag")]
             vals = vals + ["%s|%s" % (meta["_source"], meta["_classification"])]
-        out.append(dict(name=v["name"], fields=ft, names=[n for _, n in ft], vals=vals, meta=meta, uid=uid_of(v), expanded=False))
+        e = dict(name=v["name"], fields=ft, names=[n for _, n in ft], vals=vals, meta=meta, uid=uid_of(v), expanded=False)
+        if v.get("members") and not (fields or exclude or opt.get("expr")):
+            # a grouped record passes unchanged; an override lands in the member that owns the reserved field
+            ms = [dict(m) for m in v["members"]]
+            ms[0] = dict(ms[0], meta=dict(meta, _generated=ms[0]["meta"]["_generated"], _version=ms[0]["meta"]["_version"]))
+            e.update(members=ms, allkeys=v["allkeys"])
+        out.append(e)
     written = []
     if not opt.get("list"):
         for e in out:
@@ -357,11 +440,12 @@ def obs_view(v, with_meta=True):
         m = v["meta"]
         o.append([recgen.obs_value("string", m["_source"]), recgen.obs_value("string", m["_classification"]),
                   recgen.obs_value("datetime", m["_generated"]), recgen.obs_value("varint", m["_version"])])
+        o.append([obs_view(x) for x in v["members"]] if v.get("members") else None)
     return recgen.canon(o)
 
 
 def asdict_keys(v, wfields, wexclude):
-    slots = v["names"] + RESERVED
+    slots = all_keys(v)
     wexclude = wexclude or []
     if wfields:
         return [k for k in wfields if k in slots and k not in wexclude]
@@ -391,7 +475,7 @@ def json_form(t, x):
 
 
 def json_doc(v):
-    return [(k, json_form(slot_type(v, k), slot_value(v, k))) for k in v["names"] + RESERVED]
+    return [(k, json_form(slot_type(v, k), slot_value(v, k))) for k in all_keys(v)]
 
 
 class _Missing(dict):
@@ -622,8 +706,11 @@ def compare_text(exp, text, fmt, st):
     want = []
     for e in exp:
         if fmt:
-            d = _Missing((k, slot_value(e, k)) for k in e["names"] + RESERVED)
+            d = _Missing((k, slot_value(e, k)) for k in all_keys(e))
             want.append(fmt.format_map(d))
+        elif e.get("members"):
+            want.append("<%s [%s]>" % (e["name"], ", ".join(
+                "<%s %s>" % (m["name"], " ".join("%s=%r" % (k, _get(m, k)) for k in m["names"])) for m in e["members"])))
         else:
             want.append("<%s %s>" % (e["name"], " ".join("%s=%r" % (k, _get(e, k)) for k in e["names"])))
     if len(lines) != len(want):
